@@ -36,8 +36,12 @@ A labelled transition system.  One `Event` is one atomic point of one thread.
 
   `join(self)`
     joinStart             `drop(self.sender)`
-    joinReturn            every `thread.join()` has returned (on the blocking pool); `resume_unwind` of the
-                          first panicked worker in thread order, else `Ok(())`
+    joinPool              `self.pool.dispatch(joiner)` accepts the closure that joins the worker threads: it runs
+                          on a thread of the blocking pool
+    joinFallbackThread    the pool refuses it (`Err(f)`: thread limit reached and every pool thread busy):
+                          `std::thread::spawn(f.0)` -- the joiner runs on a fresh thread of its own
+    joinReturn            the joiner has joined every thread (`thread.join()`) and sent the results;
+                          `resume_unwind` of the first panicked worker in thread order, else `Ok(())`
 
 Assumption A-E3 (flume): a queued item is handed to exactly one `recv_async` (the item is *moved* out of the
 queue by `recv`); an item stays in the channel until it is received or the channel itself is freed, which
@@ -103,6 +107,8 @@ inductive Event where
   | die (w p : Nat)
   | reap (w : Nat)
   | joinStart
+  | joinPool
+  | joinFallbackThread
   | exitLoop (w : Nat)
   | teardown (w : Nat)
   | joinReturn
@@ -124,6 +130,9 @@ structure St where
   stat : Nat → TStat
   main : Nat → Main
   chan : Nat → Chan
+  /-- where the closure that joins the worker threads runs: `none` = not handed over yet,
+  `some true` = on the blocking pool, `some false` = on the fallback thread -/
+  joiner : Option Bool
   /-- `join` has returned: `some none` = `Ok(())`, `some (some p)` = resumed panic `p` -/
   joined : Option (Option Nat)
   /-- ghost: tasks whose `dispatch` / `dispatch_blocking` returned `Ok`, in acceptance order -/
@@ -141,7 +150,7 @@ structure St where
 
 def init (nw : Nat) (conc : Bool) : St :=
   { nw := nw, conc := conc, sender := true, queue := [], body := fun _ => default,
-    stat := fun _ => .absent, main := fun _ => .idle, chan := fun _ => .none, joined := none,
+    stat := fun _ => .absent, main := fun _ => .idle, chan := fun _ => .none, joiner := none, joined := none,
     accepted := [], rejected := [], started := fun _ => 0, startedOn := fun _ => [],
     ended := fun _ => 0, sent := fun _ => 0 }
 
@@ -290,6 +299,10 @@ def reap? (s : St) (w : Nat) : Option St :=
 def joinStart? (s : St) : Option St :=
   if s.sender then some (gc { s with sender := false }) else none
 
+/-- the joiner closure is handed to the pool (`onPool = true`) or, refused by it, to a fresh thread -/
+def joinHand? (s : St) (onPool : Bool) : Option St :=
+  if !s.sender && s.joiner.isNone then some { s with joiner := some onPool } else none
+
 def exitLoop? (s : St) (w : Nat) : Option St :=
   if decide (w < s.nw) && decide (s.main w = .idle) && !s.sender && s.queue.isEmpty then
     -- (the queue is empty: freeing the channel drops nothing)
@@ -302,7 +315,9 @@ def teardown? (s : St) (w : Nat) : Option St :=
   else none
 
 def joinReturn? (s : St) : Option St :=
-  if !s.sender && s.joined.isNone && allGone s then some { s with joined := some (firstDead s) } else none
+  if !s.sender && s.joiner.isSome && s.joined.isNone && allGone s then
+    some { s with joined := some (firstDead s) }
+  else none
 
 /-- one transition; `none` = the event is not enabled in `s` -/
 def step? (s : St) : Event → Option St
@@ -315,6 +330,8 @@ def step? (s : St) : Event → Option St
   | .die w p => die? s w p
   | .reap w => reap? s w
   | .joinStart => joinStart? s
+  | .joinPool => joinHand? s true
+  | .joinFallbackThread => joinHand? s false
   | .exitLoop w => exitLoop? s w
   | .teardown w => teardown? s w
   | .joinReturn => joinReturn? s
